@@ -9,7 +9,9 @@ from . import c14om, omgen
 
 ORACLE = c14om.ORACLE
 RULE = ('valid OpenMetrics documents from the grammar generator (1-4 families, 1-3 groups each, all types; native-histogram '
-        'families and histogram families mixing classic groups with native samples included) x each of the %d '
+        'families and histogram families mixing classic groups with native samples included; in two documents of three the '
+        'lines of a group write their labels each in an order of its own with probability 0.6 per group - label order '
+        'has no meaning, the rule-violating line then spells the labels of its group differently from the lines before it) x each of the %d '
         'rule-violating transformations of omgen.RULES at every applicable position (quick: a seeded subset of positions '
         'per rule and document); family orders: every family type behind every family type and behind a native-histogram family / a '
         'histogram family ending in / containing a native sample - as last family, middle family and '
@@ -41,6 +43,11 @@ def _ordered_shapes(rng, pre, tgt):
 def cases(ctx):
     rng = ctx.rng
     seen = set()
+    cur = {'reordered': False}     # the document in hand has a group whose lines write their labels in different orders
+
+    def note(doc):
+        cur['reordered'] = omgen.Gen.reordered_groups(doc) > 0
+        return doc
 
     def emit(text, rule, order=None):
         if text in seen:
@@ -49,6 +56,8 @@ def cases(ctx):
         c = {'doc': text, 'rule': rule}
         if order:
             c['order'] = order
+        if cur['reordered']:
+            c['reordered'] = True
         return [c]
 
     def extra(doc, order=None, limit=2):
@@ -70,8 +79,8 @@ def cases(ctx):
         yield from emit(d, 'native_sample_foreign_family')
     # 1. small documents: one family of each type, every rule at every position
     for i in range(18):
-        g = omgen.Gen(rng, nh=False, rich=(i % 4 != 0))
-        doc = g.doc(nfam=1, types=[TARGETS[i % 9]])
+        g = omgen.Gen(rng, nh=False, rich=(i % 4 != 0), reorder=(0.6 if (i % 9 + i // 9) % 3 else 0.0))
+        doc = note(g.doc(nfam=1, types=[TARGETS[i % 9]]))
         yield from emit(omgen.render(doc), 'valid')
         for rule, vdoc in omgen.all_violations(rng, doc, per_rule=None):
             yield from emit(vdoc, rule)
@@ -91,8 +100,8 @@ def cases(ctx):
                 if not ctx.thorough:
                     shapes = [shapes[k % 4], shapes[(k + 1 + k // 4) % 4]] if pre in PRECEDING_NH else [shapes[(k + k // 12) % 4]]
                 for types, fi in shapes:
-                    g = omgen.Gen(rng, nh=0.3, nh_mixed=True, rich=(k % 4 != 0))
-                    doc = g.doc(nfam=len(types), types=types)
+                    g = omgen.Gen(rng, nh=0.3, nh_mixed=True, rich=(k % 4 != 0), reorder=(0.6 if (k + k // 12) % 3 else 0.0))
+                    doc = note(g.doc(nfam=len(types), types=types))
                     order = 'after:' + pre
                     yield from emit(omgen.render(doc), 'valid', order)
                     for rule, vdoc in omgen.focused_violations(rng, doc, fi, per_rule=None if ctx.thorough else 2):
@@ -107,8 +116,8 @@ def cases(ctx):
     #    histogram with classic groups and native samples, with probability 0.3)
     ndocs = ctx.n(170, 2500)
     for i in range(ndocs):
-        g = omgen.Gen(rng, nh=(0.3 if i % 2 else False), nh_mixed=True, rich=(i % 4 != 0))
-        doc = g.doc()
+        g = omgen.Gen(rng, nh=(0.3 if i % 2 else False), nh_mixed=True, rich=(i % 4 != 0), reorder=(0.6 if i % 3 else 0.0))
+        doc = note(g.doc())
         order = None
         if any(s.raw is not None for f in doc.families[:-1] for gr in f.groups for s in gr):
             order = 'mixed-nh'
@@ -153,6 +162,8 @@ def classify(case, obs):
     out = ['rule:' + case['rule'], 'outcome:' + (obs[0] if obs[0] == 'ok' else obs[1])]
     if case['rule'] == 'valid' and obs[0] != 'ok':
         out.append('valid-document-rejected')
+    if case.get('reordered'):
+        out.append('label-order-varies-in-a-group:' + case['rule'])
     if case.get('order'):
         out.append('order:' + case['order'])
         if case['rule'] != 'valid' and 'nh' in case['order']:
